@@ -88,9 +88,9 @@ fn large(ctx: &mut Ctx) {
         while r < pos.len() + 4096 { args.ranks.push(r - 1); args.ranks.push(r); args.ranks.push(r + 1); r += 4096 * (1 + pos.len() / (4096 * 200)); }
         for _ in 0..300 { args.ranks.push(rng.below(pos.len() + 2)); args.idx.push(rng.below(n)); }
         let args = args.dedup();
-        let route = c % 3;
-        let sv = match route { 0 => mk::multiset_set(n, &pos), 1 => multiset_builder_set(n, &pos), _ => multiset_extend(n, &pos) };
-        check_multiset(ctx, ["multiset.try_set", "multiset.set", "multiset.extend"][route], sv, &m, &args);
+        let route = c % 5;
+        let sv = match route { 0 => mk::multiset_set(n, &pos), 1 => multiset_builder_set(n, &pos), 2 => multiset_extend(n, &pos), 3 => mk::sparse_set_unchecked(n, &pos, true, 0), _ => mk::sparse_set_unchecked(n, &pos, true, 3) };
+        check_multiset(ctx, ["multiset.try_set", "multiset.set", "multiset.extend", "multiset.set_unchecked", "multiset.set_unchecked_mixed"][route], sv, &m, &args);
         if pos[pos.len() - 1] + 1 == n {
             let r = guard(|| SparseVector::try_from_iter(pos.iter().copied()).map_err(|e| e.to_string())).and_then(|r| r);
             check_multiset(ctx, "try_from_iter", r, &m, &args);
@@ -167,7 +167,9 @@ fn small(ctx: &mut Ctx) {
                 args.ranks.extend(QArgs::extremes());
                 let args = args.dedup();
                 check_multiset(ctx, "multiset.try_set", mk::multiset_set(u, &pos), &m, &args);
-                match index % 3 {
+                match index % 5 {
+                    3 => check_multiset(ctx, "multiset.set_unchecked", mk::sparse_set_unchecked(u, &pos, true, 0), &m, &args),
+                    4 => check_multiset(ctx, "multiset.set_unchecked_mixed", mk::sparse_set_unchecked(u, &pos, true, 2), &m, &args),
                     0 => check_multiset(ctx, "multiset.set", multiset_builder_set(u, &pos), &m, &args),
                     1 => check_multiset(ctx, "multiset.extend", multiset_extend(u, &pos), &m, &args),
                     _ => {
@@ -214,9 +216,9 @@ fn generated(ctx: &mut Ctx) {
             i = j + 1;
         }
         let args = args.dedup();
-        let route = c % 3;
-        let sv = match route { 0 => mk::multiset_set(n, &pos), 1 => multiset_builder_set(n, &pos), _ => multiset_extend(n, &pos) };
-        check_multiset(ctx, ["multiset.try_set", "multiset.set", "multiset.extend"][route], sv, &m, &args);
+        let route = c % 5;
+        let sv = match route { 0 => mk::multiset_set(n, &pos), 1 => multiset_builder_set(n, &pos), 2 => multiset_extend(n, &pos), 3 => mk::sparse_set_unchecked(n, &pos, true, 0), _ => mk::sparse_set_unchecked(n, &pos, true, 3) };
+        check_multiset(ctx, ["multiset.try_set", "multiset.set", "multiset.extend", "multiset.set_unchecked", "multiset.set_unchecked_mixed"][route], sv, &m, &args);
         if pos[pos.len() - 1] + 1 == n {
             let r = guard(|| SparseVector::try_from_iter(pos.iter().copied()).map_err(|e| e.to_string())).and_then(|r| r);
             check_multiset(ctx, "try_from_iter", r, &m, &args);
